@@ -5,17 +5,32 @@ import json, os, re, subprocess, sys
 V = os.path.normpath(os.path.join(os.path.dirname(os.path.abspath(__file__)), '..'))
 patch = os.path.abspath(sys.argv[1])
 props = sys.argv[2:] or [json.loads(l)['id'] for l in open(os.path.join(V, 'properties.jsonl'))]
-r = subprocess.run(['git', '-C', '/repo', 'apply', patch])
+# VP_SEED_SCRATCH=1: work on a throw-away copy of /repo (for campaigns that must not touch the working tree); the default is
+# the prescribed way: apply to /repo, run, undo
+scratch = None
+env = dict(os.environ)
+if os.environ.get('VP_SEED_SCRATCH'):
+    import tempfile, shutil
+    scratch = tempfile.mkdtemp(prefix='vp_seedrepo_')
+    subprocess.run('cd /repo && tar c --exclude=./target --exclude=./.git . | tar -x -C %s' % scratch, shell=True, check=True)
+    subprocess.run(['git', 'init', '-q'], cwd=scratch)
+    r = subprocess.run(['git', 'apply', patch], cwd=scratch)
+    env['VP_REPO'] = scratch
+else:
+    r = subprocess.run(['git', '-C', '/repo', 'apply', patch])
 if r.returncode != 0:
     print('patch does not apply'); sys.exit(2)
 res = {}
 try:
     for p in props:
-        r = subprocess.run([os.path.join(V, 'bin', 'vp'), 'check', p, '--tier', 'quick'], cwd=V, stdout=subprocess.PIPE, stderr=subprocess.STDOUT, text=True)
+        r = subprocess.run([os.path.join(V, 'bin', 'vp'), 'check', p, '--tier', 'quick'], cwd=V, env=env, stdout=subprocess.PIPE, stderr=subprocess.STDOUT, text=True)
         obl = sorted(set(re.findall(r'obligation=(\S+)', r.stdout)))
         und = re.findall(r'UNDECIDED.*', r.stdout)
         res[p] = {'exit': r.returncode, 'obligations': obl, 'undecided': und[:1]}
         print(p, 'exit=%d' % r.returncode, ' '.join(obl)[:300], (und[0][:200] if und else ''))
 finally:
-    subprocess.run(['git', '-C', '/repo', 'checkout', '--', '.'])
-json.dump(res, open('/tmp/seeded_last.json', 'w'), indent=1)
+    if scratch:
+        shutil.rmtree(scratch, ignore_errors=True)
+    else:
+        subprocess.run(['git', '-C', '/repo', 'checkout', '--', '.'])
+json.dump(res, open(os.environ.get('VP_SEED_OUT', '/tmp/seeded_last.json'), 'w'), indent=1)
